@@ -296,6 +296,9 @@ fn run_case(c: &PluginCase, st: &mut Stats) -> Result<(), String> {
                             return Err(format!("C15 after [{}]: evaluate proposes {mv}, which is not legal at `{}`", trace.join(" "), m.pos.fen()));
                         }
                     }
+                    if m.pos.legal().is_empty() {
+                        st.class("evaluate on a finished game");
+                    }
                     board_matches(e, &m.pos, "after evaluate")?;
                     st.class("evaluate called");
                 }
